@@ -65,7 +65,7 @@ pub fn backends_for(len: usize) -> Vec<&'static str> {
     tlsh::verif::body_distance::BACKENDS
         .iter()
         .copied()
-        .filter(|b| body_backend(len, b, &probe_a, &probe_a).is_some())
+        .filter(|b| catch(|| body_backend(len, b, &probe_a, &probe_a)).map(|r| r.is_some()).unwrap_or(true))
         .collect()
 }
 
@@ -83,7 +83,9 @@ pub fn body_backend(len: usize, backend: &str, a: &[u8], b: &[u8]) -> Option<u32
 pub fn judge_body_backends(backends: &[&'static str], a: &[u8], b: &[u8]) -> Result<u32, String> {
     let expect = ref_dist_body(a, b);
     for be in backends {
-        let real = body_backend(a.len(), be, a, b).ok_or_else(|| format!("backend {be} vanished"))?;
+        let real = catch(|| body_backend(a.len(), be, a, b))
+            .map_err(|p| format!("body distance backend {be} ({} bytes) panicked: {p} (a={} b={})", a.len(), hex(a), hex(b)))?
+            .ok_or_else(|| format!("backend {be} vanished"))?;
         if real != expect {
             return Err(format!("body distance backend {be} ({} bytes) = {real} but reference = {expect} (a={} b={})", a.len(), hex(a), hex(b)));
         }
@@ -570,6 +572,7 @@ pub fn run(r: &mut Report, ctx: &Ctx) {
             );
         }
     }
+    crate::seq::section(r, ctx, "compare");
 }
 
 fn replay_pair<V: Variant>(a: &[u8], b: &[u8]) -> Result<(), String> {
